@@ -36,6 +36,7 @@ type Config struct {
 	StopOnViol   bool
 	ModelPerPath bool // extract a model for each completed path (native validation)
 	ModelMax     int  // at most this many per harness (0 = all)
+	NoPureMerge  bool // disable function-level if-conversion
 	EagerInit    bool // run the initialisers of all imports eagerly (Go order) instead of lazily
 	DumpDir      string
 }
@@ -526,6 +527,8 @@ type Engine struct {
 	sharedDone    map[*ssa.Package]bool
 	sharedMu      sync.Mutex
 	intrinsics map[string]intrinsic
+	pure       map[*ssa.Function]*pureInfo
+	pureMu     sync.Mutex
 }
 
 func (e *Engine) noteAssert(h, id string) {
